@@ -5949,6 +5949,7 @@ CONTAINS
     END INTERFACE
     c_name = TRIM(name)//C_NULL_CHAR
     ier = INT(cg_discrete_ptset_write(INT(fn, C_INT),INT(B, C_INT), INT(Z, C_INT), c_name, location, ptype, npnts, pnts, i_D))
+    D = INT(i_D)
 
   end subroutine cg_discrete_ptset_write_f
 
